@@ -23,7 +23,8 @@ EXPLANATION = (
     "2**n_wrapped, Power = wrapped.matrix ** self.exponent, Exponential = wrapped.matrix.exp(), the base gate "
     "returns itself as its dagger only under its own is_hermitian flag, and that flag is never derived from anything "
     "but a Hermiticity test; (D4) fewer than one control is rejected at construction; (D5) no hidden state in the "
-    "gate classes (module-level caches, mutable defaults)."
+    "gate classes (module-level caches, mutable defaults). "
+    "(D1x) every exit of a modifier method has the modifier's normal form (no value-dependent re-association such as inverse -> dagger); (D3f) the is_hermitian flag of every MatrixFactoryGate construction is absent, literal, forwarded or a sound Hermiticity test, with class attributes followed to their defining expression."
 )
 RULE_TEXT = "instances = (gate class, modifier method) pairs, delegating properties, matrix properties, constructions of MatrixFactoryGate; distinct by (rule, construct)"
 ASSUMPTIONS = [
